@@ -5,9 +5,11 @@
 import Lean.Data.Json
 import Spil.Model.Find
 import Spil.Model.Path
+import Spil.Model.PathX
 import Spil.Model.FS
 import Spil.Model.Cache
 import Spil.Spec.Sid
+import Spil.Spec.PathWF
 import Spil.Generated.DemoConf
 
 open Lean
@@ -90,7 +92,13 @@ def pathConf (j : Json) : P PathConf := do
     templates := ← templates (← field j "templates")
     mapping := ← listOf (pairOf str dict) (← field j "mapping")
     defaults := ← dict (← field j "defaults")
-    searchMapping := ← dict (← field j "search_mapping") }
+    searchMapping := ← dict (← field j "search_mapping")
+    typedMapping := ← (match fieldOpt j "typed_mapping" with
+      | some x => listOf (pairOf (pairOf str str) dict) x | none => pure [])
+    sidToExtra := ← (match fieldOpt j "sid_to_extra" with
+      | some x => listOf (pairOf str (listOf (pairOf str dict))) x | none => pure [])
+    extraToSid := ← (match fieldOpt j "extra_to_sid" with
+      | some x => listOf (pairOf str (listOf (pairOf str dict))) x | none => pure []) }
 
 def conf (j : Json) : P Conf := do
   return {
@@ -171,7 +179,7 @@ def sidFromCore (st : State) (j : Json) : P (Except Err Sid) := do
   match fieldOpt j "path" with
   | some p =>
     let cfgName ← (match fieldOpt j "config" with | some cj => do pure (some (← str cj)) | none => pure none : P (Option Str))
-    return st.ctx.sidOfPath (← str p) cfgName
+    return st.ctx.sidOfPathX (← str p) cfgName
   | none => throw "sid source expected"
 
 
@@ -189,7 +197,7 @@ def sidFrom (st : State) (j : Json) : P (Except Err Sid) := do
   match fieldOpt j "path" with
   | some p =>
     let cfgName ← (match fieldOpt j "config" with | some cj => do pure (some (← str cj)) | none => pure none : P (Option Str))
-    return st.ctx.sidOfPath (← str p) cfgName
+    return st.ctx.sidOfPathX (← str p) cfgName
   | none =>
   match fieldOpt j "obj" with
   | some o =>
@@ -242,7 +250,7 @@ def sidCall (st : State) (j : Json) : P Json := do
     return bindE x (fun x => (c.getWithKw x kw).map jsid)
   | "path" =>
     let cfgName ← (match fieldOpt j "config" with | some cj => do pure (some (← str cj)) | none => pure none : P (Option Str))
-    return bindE x (fun x => (c.sidPath cfgName x).map (jopt jstr))
+    return bindE x (fun x => (c.sidPathX cfgName x).map (jopt jstr))
   | "match" =>
     let s ← fieldStr j "search"
     return bindE x (fun x => (c.sidMatch x s).map jbool)
@@ -286,7 +294,7 @@ def step (st : State) (j : Json) : P Json := do
     let ty ← (match fieldOpt j "type" with | some tj => do pure (some (← str tj)) | none => pure none : P (Option Str))
     match c.cfg.pathConf? cfgName with
     | none => throw "unknown path config"
-    | some pc => return result (jopt (jpair jstr jdict)) (c.pathToDict pc (← fieldStr j "path") ty)
+    | some pc => return result (jopt (jpair jstr jdict)) (c.pathToDictX pc (← fieldStr j "path") ty)
   | "sid_call" => sidCall st j
   | "to_dict" => return result jdict (Query.toDict (← fieldStr j "q"))
   | "to_string" => return result jstr (.ok (Query.toString (← dict (← field j "d"))))
@@ -358,6 +366,16 @@ def step (st : State) (j : Json) : P Json := do
       (List.range 0x3000).all (fun n => e.isDigit (Char.ofNat n) == Generated.demoEnv.isDigit (Char.ofNat n))))
   | "spec_hier_ok" => return result jbool (.ok (Spec.sidHierOk e c.cfg.sid.templates))
   | "spec_table_ok" => return result jbool (.ok (Spec.sidTableOk e c.cfg.sid.templates))
+  | "paths_plain" =>
+    -- no path configuration uses a typed mapping or extra keys: what this driver computes with
+    -- `Spil.Model.PathX` is then `Spil.Model.Path`, the model of the theorems (PathXL.*_eq)
+    return result jbool (.ok (c.cfg.paths.all PathConf.plain))
+  | "spec_path_ok" =>
+    -- do the path configurations follow the conventions C05 / C06 are proved under?  One pair
+    -- (pathConfOk, pathsExclusive) per configured path configuration, in configuration order
+    return result (jlist (fun (n, a, b) => Json.arr #[jstr n, Json.bool a, Json.bool b]))
+      (.ok (c.cfg.paths.map (fun pc => (pc.name, Spec.pathConfOk e pc,
+        Spec.pathsExclusive e c.cfg.sid.searchSymbols pc))))
   | "extrapolate_templates" =>
     return result jdict (.ok (ConfUtil.extrapolateTemplates (← fieldStr j "sep")
       (← dict (← field j "templates")) (← listOf str (← field j "to_extrapolate"))))
